@@ -32,8 +32,17 @@ def run_specs(prop, specs, tag, coqeval=0):
         elif l.startswith("FINDING "):
             parts = l[8:].split(" | ", 2)
             if len(parts) == 3:
-                res["findings"].append(dict(engine="geom", properties=parts[0].split(","), case=parts[1], what=parts[2]))
+                # ("*": a case that did not finish concerns whichever property is being checked)
+                props = [prop] if parts[0] == "*" else parts[0].split(",")
+                res["findings"].append(dict(engine="geom", properties=props, case=parts[1], what=parts[2]))
+        elif l.startswith("HANG "):
+            res["hang"] = True
     shards = sorted(os.path.join(wd, fn) for fn in os.listdir(wd) if fn.startswith("gcases_%s." % tag))
+    if res.get("hang"):
+        # the harness stopped at the case that did not finish: the partial case files are not replayed
+        for p in shards:
+            os.remove(p)
+        return res
 
     def run_shard(p):
         return sh([DRIVER, "geom", p], timeout=3000)
